@@ -509,7 +509,7 @@ def gen_recorded():
             return (a, b, c)
     st2 = _ProbeStream()
     svc = Svc()
-    conn2 = svc._connect(channel.Channel(st2, True), dict(QUIET))
+    conn2 = svc._connect(channel.Channel(st2, True), dict(QUIET, allow_pickle=True))
     root_ref = R.box_local(SVC_ID)
     conn2._local_objects.add(SVC_ID, svc)
     served = []
@@ -520,7 +520,12 @@ def gen_recorded():
             R.request(104, H["CALLATTR"], R.box_tuple([root_ref, R.box_value("stop"), R.box_value(()), R.box_value(())])),
             R.request(105, H["CALLATTR"], R.box_tuple([root_ref, R.box_value("kw"), R.box_value((1,)),
                                                        R.box_value((("c", 3), ("b", 2)))])),
-            R.request(106, H["CALL"], R.box_value((5, (), ())))]
+            R.request(106, H["CALL"], R.box_value((5, (), ()))),
+            # replies whose shape the format fixes
+            R.request(107, H["REPR"], R.box_value((5,))), R.request(108, H["STR"], R.box_value(("s",))),
+            R.request(109, H["HASH"], R.box_value((5,))), R.request(110, H["DIR"], R.box_value((None,))),
+            R.request(111, H["INSPECT"], R.box_value((SVC_ID,))), R.request(112, H["BUFFITER"], R.box_value(((1, 2, 3), 2))),
+            R.request(113, H["PICKLE"], R.box_value((5, 2)))]
     for rq in reqs:
         mark = len(st2.out)
         try:
@@ -533,6 +538,44 @@ def gen_recorded():
           "def served : List (Val × List Val) := ["]
     L.append(",\n".join("  (%s, [%s])" % (lean_val(rq), ", ".join(lean_val(v) for v in vs)) for rq, vs in served))
     L.append("]")
+
+    # ---- 3b. the default configuration: traceback and version included.  The traceback text depends on paths and line
+    #          numbers, the version on the release: both are normalised (first and last line kept; version -> "<version>")
+    from rpyc import version as _version
+
+    def norm_default(v):
+        if type(v) is tuple and len(v) == 3 and v[0] == R.MSG_EXCEPTION and type(v[2]) is tuple and len(v[2]) == 4:
+            head, args, attrs, tb = v[2]
+            if type(tb) is str:
+                lines = [ln for ln in tb.strip().split("\n") if ln]
+                tb = (lines[0] + "\n...\n" + lines[-1]) if len(lines) > 1 else tb
+            if type(attrs) is tuple:
+                attrs = tuple((a[0], "<version>") if type(a) is tuple and len(a) == 2 and a[0] == "_remote_version"
+                              and a[1] == _version.version_string else a for a in attrs)
+            return _norm((v[0], v[1], (head, args, attrs, tb)))
+        return _norm(v)
+    st4 = _ProbeStream()
+    svc4 = Svc()
+    conn4 = svc4._connect(channel.Channel(st4, True), {})
+    conn4._local_objects.add(SVC_ID, svc4)
+    served_default = []
+    for rq in (R.request(200, H["CALLATTR"], R.box_tuple([root_ref, R.box_value("boom"), R.box_value(()), R.box_value(())])),
+               R.request(201, H["CALLATTR"], R.box_tuple([root_ref, R.box_value("custom"), R.box_value(()), R.box_value(())]))):
+        mark = len(st4.out)
+        try:
+            conn4._dispatch(R.encode(rq))
+            served_default.append((rq, [norm_default(R.decode(d, keep_order=True)) for _f, _p, d in R.packets(bytes(st4.out[mark:]))]))
+        except Exception as ex:  # noqa
+            errors.append("serve (default configuration) seq %d: %s" % (rq[1], type(ex).__name__))
+    L += ["", "/-- the same two failing requests under the DEFAULT configuration (traceback and version included; the traceback",
+          "is cut to its first and last line, the version string replaced by `<version>`) -/",
+          "def servedDefault : List (Val × List Val) := ["]
+    L.append(",\n".join("  (%s, [%s])" % (lean_val(rq), ", ".join(lean_val(v) for v in vs)) for rq, vs in served_default))
+    L.append("]")
+    try:
+        conn4.close()
+    except Exception:  # noqa
+        pass
 
     # ---- 4. how `_dispatch` classifies payloads
     log = []
